@@ -26,7 +26,7 @@ RULE = ("seeded random programs: 1-2 active main framers (3-5 station frames, op
         "absolute / clock conditions, `done me`), cloned statically as named and insular clones with 10 forms of `via`, nested "
         "up to depth 3 inside other moots, reared at run time (4 spellings of `rear`) into frames that also hold static clones, "
         "and razed (`all|first|last`, from another frame, from the host frame itself at enter / exit, or while it is active); a "
-        "driver framer flips the condition shares at generated ticks; distinct = distinct Q1 program text; non-trivial = at "
+        "driver framer flips the condition shares at generated ticks; twin clones of one moot framer (under one frame / in two framers under one tag) with update / change conditions, named marks included, against the marker-rule model; framer goals set and tested inside clones; distinct = distinct Q1 program text; non-trivial = at "
         "least 3 clones ran and at least one of them was nested, reared or given a via inode")
 META = {"engine": "A floscript",
         "technique": "metamorphic runtime check (clones vs hand-expanded ordinary auxes vs the original itself) + resolved-path walk "
